@@ -26,7 +26,7 @@ GEN_CFG = ["SPECIFICATION GSpec", "CONSTANTS", "  M = 64", "  Inc = 8", "  Exp =
            "  OrigTtl = 5", "  OrigTtlAlt = 9", "  RecTtls <- P_RecTtls", "  Steps <- P_Steps", "  MaxMono = 0",
            "  MaxCalls = {maxcalls}", "  ClkStarts <- P_Starts", "  ArgSet <- P_Args", "  RRV <- P_RRV", "  SIGV <- P_SIGV",
            "  KEYV <- P_KEYV", "  NameCaseSigned = {ncs}", '  CacheRule = "required"', "  CfgMin = 0", "  CfgMax = 99",
-           '  Deviation = "none"', "  Cfgs <- P_Cfgs", "  MaxLog = {maxlog}",
+           '  Deviation = "none"', "  Cfgs <- P_Cfgs", "  Kinds <- P_Kinds", "  MaxLog = {maxlog}",
            "  MaxVariantCalls = {maxvar}", "INVARIANT Emit", "CHECK_DEADLOCK FALSE"]
 
 G = '[rr |-> "genuine", sig |-> "genuine", key |-> "genuine", rttl |-> {}]'
@@ -42,6 +42,8 @@ KEY_ARGS = ("{" + ", ".join([G.format(5), G.format(100),
                              '[rr |-> "addRecord", sig |-> "genuine", key |-> "genuine", rttl |-> 5]',
                              '[rr |-> "genuine", sig |-> "twoSigs", key |-> "genuine", rttl |-> 5]',
                              '[rr |-> "genuine", sig |-> "swapSigs", key |-> "genuine", rttl |-> 5]',
+                             '[rr |-> "genuine", sig |-> "junkSignerFirst", key |-> "genuine", rttl |-> 100]',
+                             '[rr |-> "genuine", sig |-> "junkSignerLast", key |-> "genuine", rttl |-> 100]',
                              '[rr |-> "addOtherClass", sig |-> "swapSigs", key |-> "genuine", rttl |-> 5]',
                              '[rr |-> "genuine", sig |-> "forged", key |-> "revokedAnchor", rttl |-> 5]',
                              '[rr |-> "genuine", sig |-> "genuine", key |-> "revokedAnchor", rttl |-> 5]']) + "}")
@@ -59,6 +61,7 @@ GEN_QUICK = [
                "P_Args": SMALL_ARGS, "P_RRV": "AllRRV", "P_SIGV": "AllSIGV", "P_KEYV": "AllKEYV"}, 3, 5, 2, "TRUE"),
     # the validation-cache TTL configuration as a dimension: genuine objects, time passing
     ("config", {"P_RecTtls": "{2, 5, 100}", "P_Steps": "{1, 3, 7}", "P_Starts": "{8, 11, 14}", "P_Cfgs": ALL_CFGS,
+                "P_Kinds": '{"data", "dnskey"}',
                 "P_Args": GENUINE_ARGS, "P_RRV": "AllRRV", "P_SIGV": "AllSIGV", "P_KEYV": "AllKEYV"}, 3, 5, 0, "TRUE"),
     ("cachekey", {"P_RecTtls": "{5, 100}", "P_Steps": "{1, 7}", "P_Starts": "{8, 11}", "P_Cfgs": '{"none", "minAbove"}',
                   "P_Args": KEY_ARGS, "P_RRV": "AllRRV", "P_SIGV": "AllSIGV", "P_KEYV": "AllKEYV"}, 2, 3, 2, "TRUE"),
@@ -84,7 +87,8 @@ MC_THOROUGH = [("MC_SigCheck_history_max", ()), ("MC_SigCheck_history3", ())]
 # deliberate deviations of the machine from a required rule: each must yield a counterexample
 DEVIATIONS = [("clampAfterCap", "C06_SecureOnlyInWindow"), ("markGroup", "C06_StrayNeverSecure"),
               ("signerZoneOf", "C06_SecureOnlyGenuine"), ("xorKey", "C06_SecureOnlyGenuine"),
-              ("xorKey", "C06_StrayNeverSecure"), ("revokedSignsKeys", "C06_SecureOnlyGenuine")]
+              ("xorKey", "C06_StrayNeverSecure"), ("revokedSignsKeys", "C06_SecureOnlyGenuine"),
+              ("indexAfterFilter", "C06_StrayNeverSecure")]
 
 
 def _alteration(note, parts=("rr", "sig", "key")):
@@ -168,6 +172,8 @@ def run(res, tier, seed):
     total = 0
     witnessed = 0
     for (nm, defs, maxcalls, maxlog, maxvar, ncs) in (GEN_THOROUGH if thorough else GEN_QUICK):
+        defs = dict(defs)
+        defs.setdefault("P_Kinds", '{"data"}')
         tla_p, cfg_p = vlib.wrapper(wd, "G_" + nm, "Gen_SigCheck", defs,
                                     [l.format(maxcalls=maxcalls, maxlog=maxlog, maxvar=maxvar, ncs=ncs) for l in GEN_CFG])
         cases, st = vlib.gen(tla_p, cfg_p, wd, workers=6, timeout=1500)
@@ -192,7 +198,7 @@ def run(res, tier, seed):
             n += 1
             res.evaluations += len(v["observed"])
             if v["nontrivial"]:
-                res.nontrivial.add(vlib.digest([c["log"], c["cfg"], v["placement"], v["type"], v["alg"]]))
+                res.nontrivial.add(vlib.digest([c["log"], c["cfg"], c["kind"], v["placement"], v["type"], v["alg"]]))
             w = v.get("witness") or {}
             if w.get("fresh") == "Secure" and w.get("secure"):
                 witnessed += 1
@@ -207,6 +213,7 @@ def run(res, tier, seed):
                                         f["what"] != "ttl-exceeds-lifetime", bool(f["cached"]), note,
                                         covered=f["what"] != "stray-secure")
                 fields["cfg"] = v.get("cfg", "none")
+                fields["rrtype"] = v["type"]
                 res.mismatch(cls_, fields, detail)
             if v["ok"] and len(v["observed"]) >= 2 and any(o["secure"] for o in v["observed"]):
                 res.sample({"generator": nm, "placement": v["placement"], "history": c["log"], "observed": v["observed"]}, cap=2)
